@@ -1,19 +1,97 @@
 (* C19 — what you put into a filter is what you read back.
 
-   Proved here (factory/TextFacts.v over factory/Text.v): the text-level core of the read-back path.
-   Conditions built with lists are stored as the rendered list [quote_list vs] and read back with
-   tools.to_list ([to_list]: drop the brackets, split at every comma, strip the quotes).  That inverts
-   the quoting exactly on values free of commas, double quotes and backslashes (C19_to_list_inverts)
-   and provably not beyond (C19_comma_refuted, C19_quote_refuted: the known findings of C19).
-   The per-test args_as_tuple code, the negation folding of get_filter_conditions and the reload path
-   are exercised on the implementation for all supported forms (created by addfilter, by updatefilter on
-   an enabled and on a disabled filter; read back on the original set, while disabled, after enabling
-   again, and on the reloaded set). *)
+   Models: factory/Build.v (__create_filter) and factory/Read.v (Command.walk, the args_as_tuple methods of
+   header / size / exists / envelope / body / currentdate and of actions, the folding of `not` into the match type,
+   get_filter_conditions / get_filter_actions / get_filter_matchtype, getfilter), both run against the
+   implementation on every check -- on sets built through the API (enabled and disabled filters) and on the same
+   sets saved and loaded back, crashes (AttributeError on list values) included.
+   Proved (factory/ReadFacts.v):
+     (a) C19_conditions_read_back: for EVERY non-empty list of documented condition forms the property lists
+         (header with string values, exists / notexists, size, envelope with lists, body with transform,
+         currentdate with and without a relational operator; the :not / not forms included; any number of
+         conditions) whose values are free of commas, double quotes and backslashes, every list of documented
+         actions, anyof or allof: the filter __create_filter builds is read back by get_filter_conditions as
+         EXACTLY the tuples supplied (element by element: str, list, int) and by get_filter_matchtype as the match
+         type supplied;
+     (b) C19_actions_read_back: get_filter_actions returns exactly the actions supplied, for actions written with
+         positional strings and value-less tags (fileinto with :copy/:create, redirect with :copy, reject, discard,
+         stop, vacation with :mime and a reason);
+     (c) the text-level core: tools.to_list inverts __quote_list exactly on values free of commas, double quotes
+         and backslashes (C19_to_list_inverts) and provably not beyond (C19_comma_refuted, C19_quote_refuted: the
+         known findings of C19).
+   A disabled filter: getfilter returns the tree inside the wrapper, which is the tree that was built (C12's
+   refinement: op_get on a disabled entry), so (a) and (b) apply unchanged (the example evaluates exactly that).
+   Not proved: the read-back on RELOADED sets (trees built by the parser take the list branch of args_as_tuple);
+   address conditions, notsize, values with commas (known findings).  These are evaluated on the implementation
+   and, for the model, by the differential run on reloaded sets. *)
 From Coq Require Import String.
 From Coq Require Import List NArith Bool Arith.
 From SV Require Import Bytes Lexer Text TextFacts.
 Import ListNotations.
 Local Open Scope nat_scope.
+From SV Require Import Tables ArgCheck ArgSpec Machine Printer GenTables Ops Build BuildFacts BuildSet Read ReadFacts.
+
+(* conditions (negated forms included) and match type are read back exactly as supplied *)
+Theorem C19_conditions_read_back :
+  forall (loaded : list bytes) (conds : list dcond) (acts : list dact) 
+    (anyof : bool) (reqs : list bytes) (fuel : nat),
+  conds <> [] ->
+  Forall rcond_ok conds ->
+  Forall act_ok acts ->
+  Forall act_plain acts ->
+  4 <= fuel ->
+  exists n : node,
+    create_filter quote_if_necessary quote_list gen_tables loaded 
+      (map ctuple conds) (map atuple acts) (mt_name anyof) reqs =
+    BOk (n, freqs conds acts reqs) /\
+    std_get_conditions fuel n = ROk (map (fun d : dcond => map fv_rv (ctuple d)) conds) /\
+    get_matchtype fuel n = Some (mt_name anyof).
+Proof. exact ReadFacts.factory_read_filter. Qed.
+Print Assumptions C19_conditions_read_back.
+
+(* actions written with positional strings and value-less tags are read back exactly as supplied *)
+Theorem C19_actions_read_back :
+  forall (loaded : list bytes) (conds : list dcond) (acts : list dact) 
+    (anyof : bool) (reqs : list bytes) (fuel : nat),
+  conds <> [] ->
+  Forall rcond_ok conds ->
+  Forall ract_ok acts ->
+  Forall act_plain acts ->
+  4 <= fuel ->
+  exists n : node,
+    create_filter quote_if_necessary quote_list gen_tables loaded 
+      (map ctuple conds) (map atuple acts) (mt_name anyof) reqs =
+    BOk (n, freqs conds acts reqs) /\
+    std_get_actions fuel n = ROk (map (fun a : dact => map fv_rv (atuple a)) acts).
+Proof. exact ReadFacts.factory_read_actions. Qed.
+Print Assumptions C19_actions_read_back.
+
+(* non-vacuity: seven condition forms (five negated) and three actions meet the hypotheses *)
+Theorem C19_example_hypotheses :
+  Forall rcond_ok ex_rconds /\
+  Forall ract_ok ex_racts /\ Forall act_ok ex_racts /\ Forall act_plain ex_racts.
+Proof. exact ReadFacts.ex_r_ok. Qed.
+Print Assumptions C19_example_hypotheses.
+
+(* ... and, evaluated on the models: added, disabled, read back through getfilter *)
+Theorem C19_example_pipeline :
+  match
+    b_addfilter gen_tables [] (bs "f") (map ctuple ex_rconds) (map atuple ex_racts)
+      (bs "allof") b_empty
+  with
+  | BOk (RNone, st) =>
+      match b_getfilter gen_tables [] (bs "f") (snd (b_step (FDisable (bs "f")) st)) with
+      | Some (BOk flt) =>
+          std_get_conditions 8 flt =
+          ROk (map (fun d : dcond => map fv_rv (ctuple d)) ex_rconds) /\
+          std_get_actions 8 flt = ROk (map (fun a0 : dact => map fv_rv (atuple a0)) ex_racts) /\
+          get_matchtype 8 flt = Some (bs "allof")
+      | _ => False
+      end
+  | _ => False
+  end.
+Proof. exact ReadFacts.ex_read_pipeline. Qed.
+Print Assumptions C19_example_pipeline.
 
 (* reading a rendered list back gives the values, for values free of commas, quotes and backslashes *)
 Theorem C19_to_list_inverts :
